@@ -39,6 +39,10 @@ public:
 #include <functional>
 #include <memory>
 #include <vector>
+#include "stir/copy_fill.h"
+#include "stir/IO/read_data.h"
+#include "stir/IO/write_data.h"
+#include <sstream>
 #include <sys/types.h>
 #include <sys/wait.h>
 #include <unistd.h>
@@ -110,11 +114,16 @@ template <> struct Build<1> {
 
 // what the API of an array answers, as a tree
 template <int D> struct Obs {
-  static std::string tree(const Array<D, float>& a, const float* blk, int K) {
+  static std::string tree(const Array<D, float>& a, const float* blk, int K, const float* p0) {
     std::string s = "{\"lo\":" + std::to_string(a.get_min_index()) + ",\"hi\":" + std::to_string(a.get_max_index()) + ",\"r\":[";
     int cnt = 0;
-    for (int i = a.get_min_index(); i <= a.get_max_index() && cnt < 64; ++i, ++cnt) { if (cnt) s += ","; s += Obs<D - 1>::tree(a[i], blk, K); }
+    for (int i = a.get_min_index(); i <= a.get_max_index() && cnt < 64; ++i, ++cnt) { if (cnt) s += ","; s += Obs<D - 1>::tree(a[i], blk, K, p0); }
     return s + "]}";
+  }
+  // address of the first element in row-major order (nullptr: no elements)
+  static const float* first_ptr(const Array<D, float>& a) {
+    for (int i = a.get_min_index(); i <= a.get_max_index(); ++i) { const float* p = Obs<D - 1>::first_ptr(a[i]); if (p) return p; }
+    return nullptr;
   }
   static Array<1, float>* leaf_at(Array<D, float>& a, const std::vector<int>& c, size_t k) { return Obs<D - 1>::leaf_at(a[c[k]], c, k + 1); }
   // a random existing element / leaf (false if the walk meets an empty sub-array)
@@ -126,12 +135,17 @@ template <int D> struct Obs {
   }
 };
 template <> struct Obs<1> {
-  static std::string tree(const Array<1, float>& a, const float* blk, int K) {
+  static const float* first_ptr(const Array<1, float>& a) { return a.size() > 0 ? a.begin() : nullptr; }
+  static std::string tree(const Array<1, float>& a, const float* blk, int K, const float* p0) {
     std::vector<long long> v; int cnt = 0;
     for (int i = a.get_min_index(); i <= a.get_max_index() && cnt < 256; ++i, ++cnt) v.push_back(nd::enc(a[i]));
     const float* first = a.begin(); long cell = 0;
     if (first != nullptr && std::greater_equal<const float*>()(first, blk) && std::less<const float*>()(first, blk + K)) cell = (first - blk) + 1;
-    vh::Json j; j.num("lo", a.get_min_index()).num("hi", a.get_max_index()).arr("v", v).num("cell", a.size() > 0 ? cell : 0);
+    // where the row starts in memory, in elements from the first element of the whole array (an observation of
+    // addresses; 999999999 = further away than the specification's integers go)
+    long long off = 0;
+    if (a.size() > 0 && p0 != nullptr) { off = (long long)(first - p0); if (off > 999999999LL || off < -999999999LL) off = 999999999LL; }
+    vh::Json j; j.num("lo", a.get_min_index()).num("hi", a.get_max_index()).arr("v", v).num("cell", a.size() > 0 ? cell : 0).num("off", off);
     return j.done();
   }
   static Array<1, float>* leaf_at(Array<1, float>& a, const std::vector<int>&, size_t) { return &a; }
@@ -153,7 +167,7 @@ template <int D> struct NSys {
 
 template <int D> std::string observe_arr(const Array<D, float>& a, const float* blk, int K) {
   vh::Json j;
-  j.raw("t", Obs<D>::tree(a, blk, K)).num("sz", (long long)a.size_all()).num("sum", nd::enc(a.sum())).boolean("reg", a.is_regular())
+  j.raw("t", Obs<D>::tree(a, blk, K, Obs<D>::first_ptr(a))).boolean("contig", a.is_contiguous()).num("sz", (long long)a.size_all()).num("sum", nd::enc(a.sum())).boolean("reg", a.is_regular())
       .raw("rng", rt_json(Build<D>::read(a.get_index_range()))).num("n", (long long)a.size()).boolean("em", a.empty());
   return j.done();
 }
@@ -255,9 +269,9 @@ template <int D> NOp choose(vh::Rng& rng, NSys<D>& y, bool calm) {
   else if (r < 18) o.k = "NAssign";
   else if (r < 20) { o.k = "NMove"; o.t = 1; }
   else if (r < 21) o.k = "NRecycle";
-  else if (r < 31) { o.k = "NResize"; o.R = rng.range(0, 2) ? rt_extend(Build<D>::read(T.get_index_range()), D, rng, maxlen, maxrows) : rt_gen(D, rng, rng.coin(), true, maxlen, maxrows);
+  else if (r < 28) { o.k = "NResize"; o.R = rng.range(0, 2) ? rt_extend(Build<D>::read(T.get_index_range()), D, rng, maxlen, maxrows) : rt_gen(D, rng, rng.coin(), true, maxlen, maxrows);
                      if (rng.range(0, 2) == 0 && !o.R.leaf && o.R.hi > o.R.lo) { o.R.hi -= 1; o.R.r.pop_back(); } }
-  else if (r < 38) { o.k = "NGrow"; o.R = rt_extend(Build<D>::read(T.get_index_range()), D, rng, maxlen, maxrows); }
+  else if (r < 34) { o.k = "NGrow"; o.R = rt_extend(Build<D>::read(T.get_index_range()), D, rng, maxlen, maxrows); }
   else if (r < 44) { o.k = "NRowResize"; if (!Obs<D>::walk(T, rng, o.c, true)) { o.k = "NNop"; o.c.clear(); } else { Array<1, float>* lf = Obs<D>::leaf_at(T, o.c, 0); o.a = lf->get_min_index() + rng.range(-1, 1); o.b = lf->get_max_index() + rng.range(-1, 2); if (lf->size() == 0) { o.a = rng.range(-1, 1); o.b = o.a + rng.range(-1, 2); } } }
   else if (r < 48) { o.k = "NFill"; o.a = rng.range(-3, 9); }
   else if (r < 53) { o.k = "NIotaAll"; o.a = rng.range(-5, 20); o.forked = true; }
@@ -279,7 +293,9 @@ template <int D> NOp choose(vh::Rng& rng, NSys<D>& y, bool calm) {
       return make_multi<D>(y, o.t, kind, rng.range(0, nops), rng.range(1, 5), one ? rng.range(0, 3) : o.a, one ? 0 : o.b);
     }
   }
-  else if (r < 94) { o.k = "NContig"; o.forked = true; }
+  else if (r < 94) { static const char* ks[] = { "NContig", "NCopyTo", "NFillFrom", "NFullPtr", "NFullPtrW", "NWriteData", "NReadData" };
+                     o.k = ks[rng.range(0, 6)]; o.a = rng.range(-5, 20); o.forked = true;
+                     if (o.k != "NContig" && T.size_all() == 0) o.k = "NContig"; }
   else if (r < 100) { o.k = "NMemSet"; o.t = 1; o.a = rng.range(1, y.K); o.b = rng.range(-9, 9); }
   else if (r == 100) { o.k = "NFill"; o.a = rng.range(0, 3); }
   else { o.k = "NSMul"; o.a = 0; }
@@ -326,6 +342,14 @@ template <int D> void perform(NSys<D>& y, const NOp& op, NOutcome& out) {
                            std::unique_ptr<A> n(op.a == 0 ? new A(T + *w) : op.a == 1 ? new A(T - *w) : op.a == 2 ? new A(T * *w) : new A(T / *w)); y.s[op.t - 1] = std::move(n); }
   else if (k == "NMemSet") y.blk[op.a - 1] = (float)op.b;
   else if (k == "NContig") out.res.push_back(T.is_contiguous() ? 1 : 0);
+  else if (k == "NCopyTo") { std::vector<float> buf(T.size_all() + 2, -7.F); copy_to(static_cast<const A&>(T), buf.begin()); for (size_t i = 0; i < T.size_all(); ++i) out.res.push_back(nd::enc(buf[i])); }
+  else if (k == "NFillFrom") { std::vector<float> buf(T.size_all()); for (size_t i = 0; i < buf.size(); ++i) buf[i] = (float)(op.a + (int)i); fill_from(T, buf.begin(), buf.end()); }
+  else if (k == "NFullPtr") { const A& c = T; const float* p = c.get_const_full_data_ptr(); for (size_t i = 0; i < c.size_all(); ++i) out.res.push_back(nd::enc(p[i])); c.release_const_full_data_ptr(); }
+  else if (k == "NFullPtrW") { float* p = T.get_full_data_ptr(); for (size_t i = 0; i < T.size_all(); ++i) p[i] = (float)(op.a + (int)i); T.release_full_data_ptr(); }
+  else if (k == "NWriteData") { std::stringstream ss; write_data(ss, static_cast<const A&>(T)); const std::string bytes = ss.str();
+                                for (size_t i = 0; i + sizeof(float) <= bytes.size(); i += sizeof(float)) { float f; memcpy(&f, bytes.data() + i, sizeof(float)); out.res.push_back(nd::enc(f)); } }
+  else if (k == "NReadData") { std::string bytes; for (size_t i = 0; i < T.size_all(); ++i) { float f = (float)(op.a + (int)i); bytes.append(reinterpret_cast<const char*>(&f), sizeof(float)); }
+                               std::stringstream ss(bytes); read_data(ss, T); }
   else if (k == "NNop") {}
   else { fprintf(stderr, "unknown nd op %s\n", k.c_str()); _exit(3); }
 }
